@@ -75,8 +75,11 @@ type pathQuery struct {
 	fn       *ssa.Function
 	isTarget func(b *ssa.BasicBlock) bool
 	avoid    func(b *ssa.BasicBlock) bool
-	// initBools: what is assumed about boolean values (parameters) at entry
+	// optional: facts that hold on entry (about parameters), and a visitor of every state in which
+	// a target block is reached (the search then goes on instead of stopping at the first one)
 	initBools map[ssa.Value]bool
+	initTyps  map[ssa.Value]*typeFact
+	each      func(s *pathState)
 	// result
 	witness []int // block indices of a path found
 }
@@ -114,9 +117,17 @@ func typeTest(v ssa.Value) (ssa.Value, types.Type, bool) {
 
 func (q *pathQuery) search() bool {
 	start := &pathState{blk: q.fn.Blocks[0], bools: map[ssa.Value]bool{}, typs: map[ssa.Value]*typeFact{}}
-	for v, b := range q.initBools {
-		start.bools[v] = b
+	for k, v := range q.initBools {
+		start.bools[k] = v
 	}
+	for k, v := range q.initTyps {
+		tf := &typeFact{is: v.is, not: map[string]types.Type{}}
+		for a, b := range v.not {
+			tf.not[a] = b
+		}
+		start.typs[k] = tf
+	}
+	found := false
 	seen := map[string]bool{}
 	type item struct {
 		s    *pathState
@@ -136,6 +147,14 @@ func (q *pathQuery) search() bool {
 			abort("path search exceeded its state budget in %s", q.fn)
 		}
 		if q.isTarget(s.blk) {
+			if q.each != nil {
+				if !found {
+					q.witness = it.path
+				}
+				found = true
+				q.each(s)
+				continue
+			}
 			q.witness = it.path
 			return true
 		}
@@ -180,7 +199,7 @@ func (q *pathQuery) search() bool {
 			// return / panic: path ends
 		}
 	}
-	return false
+	return found
 }
 
 func (s *pathState) assumeType(x ssa.Value, T types.Type, val bool) bool {
